@@ -10,7 +10,7 @@ does for the reader.  `std::map<std::string, json>` is an association list kept 
 byte-wise order of `std::string::compare` (`insert`); `WF` states the ordering invariant.
 
 The model describes the code with the fix: commits of this project applied (fixes/F28, FJ1, FJ2, FJ3, FJ5,
-FJ6 from this work; from the constant-folding work: integer literals get the first type that holds their
+FJ6, FJ7 from this work; from the constant-folding work: integer literals get the first type that holds their
 value — `integerLiteral` — and primitive::equal compares floats numerically): object keys are dumped
 through the string escaper; typed assignment clears `primitive::source`; `set` converts through
 `asObject()`; merging looks keys up literally; an unclosed object is an error.
@@ -279,10 +279,14 @@ def loadDecimal (expLoad : Bytes → Prim × Bytes) (s0 s : Bytes) (neg : Bool) 
         (true, ep.ty.isFloat, r)
     let used := s0.take (s0.length - rest.length)
     if dec || fl then
-      let (n, m, e) := decimalOfText used
-      let d := JsonFloat.ofDecimal JsonFloat.f64 n m e
-      if fl then (⟨.f32, JsonFloat.f64ToF32 d, used⟩, rest)
-      else (⟨.f64, d, used⟩, rest)
+      -- the digits (without the sign and the blanks after it) are converted, then the sign is applied
+      -- (fix FJ7; before it the whole text went to sscanf, which fails on "- 5.0")
+      let (_, m, e) := decimalOfText (s.take (s.length - rest.length))
+      let d := JsonFloat.ofDecimal JsonFloat.f64 false m e
+      if fl then
+        let f := JsonFloat.f64ToF32 d
+        (⟨.f32, if neg then (f % 2147483648) + 2147483648 else f, used⟩, rest)
+      else (⟨.f64, if neg then (d % 9223372036854775808) + 9223372036854775808 else d, used⟩, rest)
     else
       -- [cDigits, cDigitsEnd): a leading 0 starts an octal literal (read by parseBinary)
       let digitText := s.take (s.length - s1.length)
